@@ -121,3 +121,18 @@ def enc_rank_joint(inp, out, snap=0.0):
                 res[it.multi_index] = 2 * i - 1     # strictly between uniq[i-1] and uniq[i]
         return res.tolist()
     return enc(inp, False), enc(out, True)
+
+
+def enc_joint(arrays):
+    """Joint dense rank encoding of several float arrays: equal values <=> equal integers across all arrays, NaN -> NAN,
+    +inf / -inf keep their order. Used for relations that demand bit-for-bit equality of two executions."""
+    flat = np.concatenate([np.asarray(a, dtype=np.float64).ravel() for a in arrays]) if arrays else np.array([])
+    uniq = np.unique(flat[~np.isnan(flat)])
+    out = []
+    for a in arrays:
+        a = np.asarray(a, dtype=np.float64)
+        res = np.full(a.shape, NAN, dtype=np.int64)
+        m = ~np.isnan(a)
+        res[m] = np.searchsorted(uniq, a[m])
+        out.append(res.tolist())
+    return out
